@@ -3,6 +3,7 @@ Soundness of `PartialJoin.commute` (C04, and the join case of back-tracking in C
 fixed relation upstream of an existing unary operation.
 -/
 import DafRel.Lemmas.JoinSound
+import DafRel.Lemmas.SortFlatMap
 
 namespace DafRel
 
@@ -391,6 +392,28 @@ theorem PJCtx.proj {p : PJoin} {tcols : Cols} {F l : List Row} (k : PJCtx p tcol
         have hau : a u = none := (k.hF a ha).none_of_not_mem u huf
         simp [Row.restrict, Row.merge, hu, huc, hau]
 
+/-- With the target as the LEFT (outer) operand of the nested loop, a Sort over the target's columns commutes with
+the partial join as a LIST function: the rows a target row expands to carry its sort key, and the sort is stable. -/
+theorem PJCtx.sort_left {p : PJoin} {tcols : Cols} {F l : List Row} (k : PJCtx p tcols F l) (ts : List SortTerm)
+    (hts : (UOp.sortCols ts).subset tcols = true) (hside : p.fixedIsLhs = false) :
+    isort (lexLe ts) (p.semRows F l) = p.semRows F (isort (lexLe ts) l) := by
+  unfold PJoin.semRows
+  simp only [hside, Bool.false_eq_true, if_false]
+  unfold joinRows
+  apply isort_flatMap (lexLe ts) (lexLe ts) _ (lexLe_total ts) (lexLe_trans ts)
+  intro u v _ _ x y hx hy
+  have key : ∀ (b z : Row), z ∈ (F.filter (fun a => b.agree a p.join.minCols && p.join.pred.val (b.merge a))).map
+      (fun a => b.merge a) → ∀ t, t ∈ ts → t.expr.val z = t.expr.val b := by
+    intro b z hz t ht
+    obtain ⟨a, ha, rfl⟩ := List.mem_map.mp hz
+    have ha' := List.mem_filter.mp ha
+    simp only [Bool.and_eq_true] at ha'
+    apply Expr.val_congr
+    intro c hc
+    exact k.merged_left b a ha'.1 ha'.2.1 c
+      ((Cols.subset_iff _ _).mp (sortCols_subset_term ts tcols hts t ht) c hc)
+  exact lexLe_congr ts u x v y (key u x hx) (key v y hy)
+
 /-- Permuting the target's rows permutes the joined rows. -/
 theorem PJoin.semRows_perm (p : PJoin) (F l l' : List Row) (h : List.Perm l l') :
     List.Perm (p.semRows F l) (p.semRows F l') := by
@@ -467,7 +490,11 @@ theorem pjoin_commute_sound (p : PJoin) (cur : UOp) (tcols : Cols) (F l : List R
         (fun t ht => (p.mem_appliedColumns tcols t).mpr (Or.inr ((Cols.subset_iff _ _).mp hts t ht)))
     · simp only [UOp.sem]
       exact (isort_perm _ _).trans (p.semRows_perm F _ _ (isort_perm _ l).symm)
-    · intro h; exact absurd rfl (h ts)
+    · intro h
+      rcases h with h | h
+      · exact absurd rfl (h ts)
+      · simp only [UOp.sem]
+        exact k.sort_left ts hts h
   | «calc» tag e =>
     simp only [UOp.appliedColumns] at hpm hshare2 ⊢
     simp only [UOp.wfOn, UOp.columnsRequired, Bool.and_eq_true, decide_eq_true_eq] at hcur
